@@ -12,7 +12,7 @@ Definition sizes_positive (c : dscfg) (ps : list (list Z)) : Prop :=
 
 (* what _convert_to_parameter_stats makes of an initial local state *)
 Definition sps (c : dscfg) (p : list Z) : pstats :=
-  mkPS (qv_f32 p)
+  mkPS (qv_flt (ds_pdt c) p)
        (map (fun s => Leaf [s; s] F32) (sh_sizes c p))
        (map (fun s => Leaf [s; pd_of c s] F32) (sh_sizes c p))
        (qv_mom c p) (qv_mom c p) (avg_layout c p)
@@ -68,7 +68,7 @@ Lemma transform_grad_sps c p :
   valid_ptype c -> ds_sharded c = true -> transform_grad c p (sps c p) = Ok (sps c p).
 Proof.
   intros Hp Hsh. unfold transform_grad, sps. cbn [ps_diag ps_preconds ps_stats ps_avg ps_tm].
-  rewrite Hsh, orb_true_r. cbn [qv_f32 qv]. rewrite list_eqb_z_refl. cbn [obind].
+  rewrite Hsh, orb_true_r. cbn [qv_flt qv]. rewrite list_eqb_z_refl. cbn [obind].
   assert (G : (if skipped c p then Ok tt
                else guard (slots_ok c p (zlen (map (fun s => Leaf [s; pd_of c s] F32)
                                                      (sh_sizes c p)))) 99) = Ok tt).
@@ -286,7 +286,7 @@ Proof.
     rewrite nkind_eqb_refl, svals_eqb_refl. cbn [andb].
     assert (zlen (tl p) = zlen p - 1) by (destruct p; [cbn in *; lia|cbn [tl]; rewrite zlen_cons; lia]).
     repeat (apply andb_true_iff; split); try reflexivity; lia.
-  - unfold qv_f32, qv. cbn [pspec_matches].
+  - unfold qv_flt, qv. cbn [pspec_matches].
     rewrite nkind_eqb_refl, svals_eqb_refl. cbn [andb].
     repeat (apply andb_true_iff; split); try reflexivity; lia.
 Qed.
@@ -299,8 +299,8 @@ Proof.
   unfold ls_layout. cbn [ls_diag ls_dmom ls_mom ls_avg ls_tm ls_start ls_sizes].
   rewrite pspec_matches_node'. cbn [pm_list].
   rewrite !pm_mom, pm_metrics. pose proof (zlen_nonneg p).
-  assert (A : pspec_matches (qv_f32 p) (qv (PSpec (zlen p)) empty_list empty_list F32 false p) = true).
-  { unfold qv_f32, qv. cbn [pspec_matches]. rewrite nkind_eqb_refl, svals_eqb_refl. cbn [andb].
+  assert (A : pspec_matches (qv_flt (ds_pdt c) p) (qv (PSpec (zlen p)) empty_list empty_list F32 false p) = true).
+  { unfold qv_flt, qv. cbn [pspec_matches]. rewrite nkind_eqb_refl, svals_eqb_refl. cbn [andb].
     repeat (apply andb_true_iff; split); try reflexivity; lia. }
   assert (B : pspec_matches (avg_layout c p) (if ds_fd c && ds_avg c then PSpec (zlen p) else masked) = true).
   { unfold avg_layout. destruct (ds_fd c && ds_avg c); [cbn; lia|reflexivity]. }
